@@ -1237,6 +1237,10 @@ V('selectop',
   lambda e, w: e.selectcontains(w.s[0], 'b', 'x', complement=True),
   lambda e, w: e.selecttrue(w.s[0], 'a', complement=True),
   lambda e, w: e.selectisinstance(w.s[0], 'd', (str, int), complement=True))
+# the two-argument form of unflatten on a plain, mutable list of values
+V('unflatten',
+  lambda e, w: e.unflatten(w.arg(['p', 1, 'q', 2, 'r']), 2),
+  lambda e, w: e.unflatten(w.arg([1, 2, 3, 4, 5, 6, 7]), 3, missing=0))
 # cat with the documented header= argument naming the source's own fields
 V('cat', lambda e, w: e.cat(w.s[0], header=list(w.tables[0][0])),
   lambda e, w: e.cat(w.s[0], w.s[1], header=list(w.tables[0][0]),
